@@ -18,6 +18,7 @@ RULE = ('Hypothesis data sets: 40-200 unsorted abscissae (sometimes with repeate
         'object reports: returned mask and curve must equal the reference (so injected outliers that the procedure rejects end False).  '
         'Non-trivial = >=1 outlier, >=1 zero weight, non-identity permutation, maxiter >= 1, well supported.')
 RULE += '  Also: repeated abscissae, exactly determined fits (one interval, nord or nord+1 good points), zero thresholds, integer y without weights.'
+RULE += ' Round 10: sub-check gap_polynomial (zero-weight stretches 1.5-3 x order intervals wide; polynomial data of degree < order; validity predicate independent of the breakpoints kept).'
 RULE += ' Round 5: sub-check exact_ties (order 1, integer data: residuals exactly on a limit); bkspace dividing the range exactly.'
 ASSUMPTIONS = ['abscissae may repeat (up to 8 coinciding pairs); each point is judged on its own, so the order among equal x does not matter',
                'if any normalised residual comes within 1e-6 of a rejection limit during the reference run the case is accepted either way',
@@ -347,11 +348,86 @@ def tie_body(case):
     if (np.abs(r) == U).any():
         note_label('residual-exactly-on-limit')
 
+# ------------------------------------------------------------------ a stretch without usable data wider than the order (breakpoints are dropped)
+@st.composite
+def gap_case(draw):
+    nord = draw(st.sampled_from([4, 3, 2, 4]))
+    n = draw(st.integers(120, 260))
+    opt = draw(st.sampled_from(['bkspace', 'nbkpts', 'everyn', 'bkspace']))
+    nint = draw(st.integers(16, 30))                      # breakpoint intervals over the data range
+    outlier = draw(st.sampled_from([None, None, 0.15, 0.85, 0.3]))
+    return dict(nord=nord, n=n, opt=opt, nint=nint, gap_start=draw(st.sampled_from([0.3, 0.45, 0.55, 0.2])), gap_width=draw(st.sampled_from([1.5, 2.0, 3.0])),
+                coef=[draw(uf) for _ in range(4)], garbage=draw(st.sampled_from([0.0, 99.0, -1e6])), jitter=[draw(uf) for _ in range(8)], outlier=outlier,
+                maxiter=draw(st.sampled_from([10, 20])) if outlier else draw(st.sampled_from([2, 5, 10, 3])), perm_seed=draw(st.integers(0, 10 ** 6)),
+                two_gaps=draw(st.booleans()))
+
+
+def gap_body(case):
+    """data that are exactly a polynomial of degree < order (every spline on any set of knots that leaves the data supported fits them exactly), with a
+    run of zero-weight points 1.5 - 3 x order breakpoint intervals wide, holding arbitrary values: the fit has to give up breakpoints and go round again.
+    Whatever breakpoints it keeps, the returned curve must pass through the weighted points, the zero-weight points are flagged False and (no outlier)
+    every weighted point True; a 60-sigma outlier away from the gap is flagged False."""
+    from pydl.pydlutils.bspline import iterfit
+    nord, n = case['nord'], case['n']
+    k = np.arange(n, dtype='f8')
+    x = 100.0 * (k + 0.3 * np.array([case['jitter'][i % 8] for i in range(n)])) / n
+    c = case['coef']
+    t = x / 100.0
+    y = 2.0 + 3.0 * c[0] * t + (2.0 * c[1] * t ** 2 if nord >= 3 else 0.0) + (1.5 * c[2] * t ** 3 if nord >= 4 else 0.0)
+    width = 100.0 / case['nint']
+    iv = np.full(n, 25.0)
+    lo = 100.0 * case['gap_start']
+    gap = (x > lo) & (x < lo + min(case['gap_width'] * nord * width, 40.0))        # (weighted data remain on both sides of it)
+    if case['two_gaps']:
+        gap |= (x > 88.0 - nord * 1.2 * width) & (x < 88.0)
+    iv[gap] = 0.0
+    yy = y.copy()
+    yy[gap] = case['garbage']
+    clean = ~gap
+    if case['outlier'] is not None:
+        j = int(np.argmin(np.abs(x - 100.0 * case['outlier'])))
+        if clean[j] and not gap[max(0, j - 6):j + 7].any():
+            yy[j] += 12.0                          # 60 sigma
+            clean[j] = False
+            note_label('outlier')
+        else:
+            j = None
+    else:
+        j = None
+    kw = dict(nord=nord, maxiter=case['maxiter'], upper=5.0, lower=5.0)
+    if case['opt'] == 'bkspace':
+        kw['bkspace'] = width
+    elif case['opt'] == 'nbkpts':
+        kw['nbkpts'] = case['nint'] + 1
+    else:
+        kw['everyn'] = max(2, int(round(n / case['nint'])))
+    perm = np.random.RandomState(case['perm_seed']).permutation(n)
+    sset, mask = call(iterfit, x[perm].copy(), yy[perm].copy(), invvar=iv[perm].copy(), **kw)
+    with judge('gap'):
+        m = np.zeros(n, dtype=bool)
+        m[perm] = np.asarray(mask, dtype=bool)
+        check(not m[gap].any(), 'gap:zero-weight-point-flagged-good', lambda: dict(n_flagged=int(m[gap].sum())))
+        if j is None:
+            check(bool(m[~gap].all()), 'gap:weighted-point-on-the-curve-flagged-bad', lambda: dict(n_bad=int((~m[~gap]).sum()), first=int(np.nonzero(~m & ~gap)[0][0]), nord=nord, opt=case['opt'], maxiter=case['maxiter']))
+        else:
+            check(not m[j], 'gap:outlier-flagged-good', lambda: dict(index=j))
+        yf, vm = call(sset.value, x.copy())
+        yf = np.asarray(yf, dtype='f8')
+        err = np.abs(yf - y)[clean]
+        check(bool(np.all(np.isfinite(yf[clean])) and err.max() <= 1e-6 * max(1.0, np.abs(y).max())), 'gap:curve-does-not-pass-through-the-weighted-points',
+              lambda: dict(max_error=float(err.max()), at_x=float(x[clean][err.argmax()]), nord=nord, opt=case['opt'], maxiter=case['maxiter'], breakpoints_kept=int(np.asarray(sset.mask).sum()),
+                           breakpoints=int(np.asarray(sset.mask).size)))
+    if not np.asarray(sset.mask).all():
+        note_label('breakpoints-dropped')
+
 
 SUBCHECKS = [
     SubCheck('exact_ties', tie_body, strategy=tie_case, classify=lambda c: ['side:' + c['side'], 'U:%d' % c['U']],
              nontrivial=lambda c, l: 'residual-exactly-on-limit' in l, quick=800, thorough=20000, shards=(4, 16),
              doc='normalised residuals that are exactly on a rejection limit are not beyond it (exact arithmetic case: order 1, integer data)'),
+    SubCheck('gap_polynomial', gap_body, strategy=gap_case, classify=lambda c: ['nord:%d' % c['nord'], c['opt'], 'maxiter:%d' % c['maxiter'], 'outlier' if c['outlier'] else 'no-outlier'],
+             nontrivial=lambda c, l: 'breakpoints-dropped' in l, quick=600, thorough=20000, shards=(8, 16), floor=0.0,
+             doc='zero-weight stretches wider than the order (breakpoints dropped, refit): exact polynomial data must be reproduced at the weighted points, masks as documented'),
     SubCheck('iterfit_procedure', body, strategy=case_strategy, classify=classify, nontrivial=nontrivial,
              quick=2400, thorough=60000, shards=(16, 16), doc='permutation invariance, weight handling, reference fit/reject/refit procedure'),
 ]
